@@ -325,7 +325,7 @@ def run(ctx):
             sh = shapes if (not ctx.quick or ci in (0, 4)) else shapes[ci % 6::6]
             for spec in sh:
                 jobs.append(('point', fmt, cfg, spec, ctx.scale))
-            for spec in g.ZERO_SHAPES + g.EARLY_SHAPES + g.WORDS_SHAPES:
+            for spec in g.ZERO_SHAPES + g.EARLY_SHAPES + g.WORDS_SHAPES + g.BOOL_SHAPES:
                 if not ctx.quick or ci in (0, 3, 5) or spec[0] == 4:
                     jobs.append(('point', fmt, cfg, spec, ctx.scale))
             jobs.append(('converted', fmt, cfg, (4, 'guessable', 'numeric'), ctx.scale))
